@@ -51,6 +51,9 @@ dec_h!(c15_pk_decode_len8, pk_decode_total, 8);
 dec_h!(c15_pk_decode_len44, pk_decode_total, 44);
 dec_h!(c15_sk_decode_len4, sk_decode_total, 4);
 dec_h!(c15_sk_decode_len44, sk_decode_total, 44);
+// longer than a key (decodes to up to 36 / 69 bytes): "every digest/key argument (short, long, ..)"
+dec_h!(c15_pk_decode_len48, pk_decode_total, 48);
+dec_h!(c15_sk_decode_len92, sk_decode_total, 92);
 
 /// decode(encode(k)) == k for every 32-byte public key.
 #[kani::proof]
